@@ -84,6 +84,53 @@ fn main() {
                 run_consumer(&s_while, &tokens)
             )
         }
+        // history: the SAME if / elseif / while / not line (same script text, same context and state) evaluated for several
+        // token lists of equal length, one after the other; every evaluation must be the stateless verdict of its own list
+        "TS" => {
+            let lists: Vec<Vec<String>> = f[1..].iter().map(|x| dec_list(x)).collect();
+            let k = lists[0].len();
+            let args: Vec<String> = (0..k).map(|i| format!("${{v{}}}", i)).collect();
+            let a = args.join(" ");
+            let scripts = [
+                format!("__first_err = set\nunset __first_err\no = not {}\nr = not ${{o}}\nif ${{r}}\nr = set T\nelse\nr = set F\nend\n", a),
+                format!("r = set F\nif {}\nr = set T\nend\n", a),
+                format!("r = set F\nif false\nr = set X\nelseif {}\nr = set T\nend\n", a),
+                // a function so that the loop is LEFT (return) and ENTERED again on the same line
+                format!("fn w__\nwhile {}\nreturn T\nend\nreturn F\nend\nr = w__\n", a),
+            ];
+            let mut outs: Vec<Vec<String>> = vec![vec![]; lists.len()];
+            for script in scripts.iter() {
+                let mut context = Some(sdk_context(true));
+                for (j, tokens) in lists.iter().enumerate() {
+                    let mut ctx = context.take().unwrap();
+                    ctx.variables.remove("__first_err");
+                    ctx.variables.remove("r");
+                    for (i, t) in tokens.iter().enumerate() {
+                        ctx.variables.insert(format!("v{}", i), t.clone());
+                    }
+                    match runner::run_script(script, ctx, None) {
+                        Ok(c) => {
+                            let v = if let Some(e) = c.variables.get("__first_err") {
+                                err_code(e)
+                            } else {
+                                match c.variables.get("r").map(|s| s.as_str()) {
+                                    Some("T") => "T".to_string(),
+                                    Some("F") => "F".to_string(),
+                                    other => format!("X{}", enc_str(&format!("{:?}", other))),
+                                }
+                            };
+                            outs[j].push(v);
+                            context = Some(c);
+                        }
+                        Err(e) => {
+                            outs[j].push(format!("X{}", enc_str(&e.to_string())));
+                            context = Some(sdk_context(true));
+                        }
+                    }
+                }
+            }
+            outs.iter().map(|o| o.join(" ")).collect::<Vec<_>>().join(";")
+        }
         "LOWER" => {
             let alphabet: Vec<char> = dec_str(f[1]).chars().collect();
             let mut bad = vec![];
